@@ -35,8 +35,9 @@ fn any_msg(ch: &mut Choices) -> AnyMessage {
     let proto = ch.draw("any.proto", NPROTO as u64) as usize;
     let k = ch.draw("any.kind", SPECS[proto].msgs.len() as u64) as u8;
     if proto == PS && k == 1 && ch.chance("any.hugepeers", 1, 6) {
+        let md = if ch.chance("any.hugepeers.distinct", 1, 2) { 400 } else { 50 };
         return AnyMessage::PeerSharing(p::peersharing::Message::SharePeers(
-            (0..400u32).map(|j| p::peersharing::PeerAddress::V4(std::net::Ipv4Addr::from_bits(0x0a000001 + (j % 50)), 3000 + (j % 50) as u16)).collect(),
+            (0..400u32).map(|j| p::peersharing::PeerAddress::V4(std::net::Ipv4Addr::from_bits(0x0a000001 + (j % md)), 3000 + (j % md) as u16)).collect(),
         ));
     }
     gen_msg(proto, k, ch)
